@@ -345,6 +345,37 @@ package jlib
 //@   assigns heap
 //@   trusted
 
+// --- C18: $number and $round ---------------------------------------------------------------------------------------------------
+// multByPow10 shifts the decimal exponent of x's *shortest* decimal form (%g: the digits that read back to the same
+// double) and parses the result; it leaves x alone for n = 0, NaN and infinities.
+//@ func multByPow10
+//@   props C18 C09
+//@   ensures [C18:nothing-to-shift] (n == 0 || isNaN(x) || isInf(x)) ==> same(result, x)
+//@   atcall[C18:shortest-decimal-form] fmt.Sprintf#0 requires streq(callee_arg0, "%g") && len(callee_arg1) == 1
+//@   atcall[C18:reads-the-shifted-text-as-a-double] strconv.ParseFloat#0 requires callee_arg1 == 64
+// $round: 0 stays 0 (without a sign), integers are unchanged for a non-negative precision, otherwise the value is
+// scaled by 10^precision, rounded (half to even) and scaled back by 10^-precision
+//@ func Round
+//@   props C18 C09
+//@   ensures [C18:zero-is-zero] x == 0.0 ==> same(result, 0.0)
+//@   ensures [C18:integer-with-nonnegative-precision-unchanged] (!(x == 0.0) && prec.Int >= 0 && x == trunc(x)) ==> same(result, x)
+//@   atcall[C18:scaled-by-the-precision] multByPow10#0 requires same(callee_x, x) && callee_n == prec.Int
+//@   atcall[C18:scaled-back] multByPow10#1 requires callee_n == -prec.Int
+//@   atif[C18:ties-go-to-even] "isHalfway(intermed)" iff ret("isHalfway#0", 0)
+//@ func isHalfway
+//@   props C18 C09
+//@   assigns nothing
+// $number: booleans are 0/1, numbers themselves, strings in JSON number syntax (the reNumber pattern) the double
+// strconv.ParseFloat reads; anything else is an error
+//@ func Number
+//@   props C18 C09
+//@   ensures [C18:true-is-one] (kind(res(value)) == 1 && bval(res(value))) ==> (r1 == nil && r0 == 1.0)
+//@   ensures [C18:false-is-zero] (kind(res(value)) == 1 && !bval(res(value))) ==> (r1 == nil && r0 == 0.0)
+//@   ensures [C18:number-is-itself] kind(res(value)) == 14 ==> (r1 == nil && same(r0, fval(res(value))))
+//@   ensures [C18:other-kinds-rejected] (kind(res(value)) != 1 && !numKind(kind(res(value))) && kind(res(value)) != 24) ==> r1 != nil
+//@   atcall[C18:json-number-syntax-only] regexp.Regexp.MatchString#0 requires callee_arg0 == reNumber && same(callee_arg1, sval(res(value)))
+//@   atcall[C18:nearest-double] strconv.ParseFloat#0 requires same(callee_arg0, sval(res(value))) && callee_arg1 == 64
+
 // --- C13: $sort ------------------------------------------------------------------------------------------
 // $sort(a) on an all-number / all-string array: the members are collected in order (every one of them a float64 /
 // a string, which is what the comparison closures assert), then ordered by sort.SliceStable (trusted: stable) with
